@@ -175,4 +175,15 @@ PROPS = {
         thorough=dict(budget_s=1200, profiles=[P("C20", 2000), P("C20", 600, "banned")]),
         reach=["c20_reads"],
     ),
+    "C18": dict(
+        level="exploration",
+        rule="whitelist file histories: initial file (enabled/disabled, 0-6 IPv4/IPv6 addresses) and 1-10 edits (add, remove, replace all, enable, disable) "
+             "applied as in-place write, truncate-then-write in two steps, invalid YAML then valid, delete+recreate, or rename-over; real files and "
+             "real inotify with a sentinel barrier; after every edit 5-8 probe clients from listed, unlisted, formerly listed and IPv6 addresses "
+             "(arbitrary source addresses come from the simulated kernel); oracle: admitted iff disabled or listed in the current file; admitted = "
+             "+PONG and the GET reaches a backend, rejected = closed with zero bytes and nothing forwarded; non-trivial = both outcomes occurred",
+        quick=dict(budget_s=90, profiles=[P("C18", 300)]),
+        thorough=dict(budget_s=1500, profiles=[P("C18", 8000), P("C18", 2000, "inplace"), P("C18", 2000, "v4")]),
+        reach=["c18_admitted", "c18_rejected", "c18_edits"],
+    ),
 }
